@@ -107,9 +107,9 @@ def bounded(tier, seed):
             continue
         admit = ADMIT.get(kind, lambda fr: True)
         if kind == "MemoryCache":
-            qs = allq[:: (8 if tier == "quick" else 2)]
+            qs = allq[:: (11 if tier == "quick" else 2)]
         else:
-            k = 15 if tier == "quick" else 200
+            k = 11 if tier == "quick" else 200
             qs = rnd.sample(allq, min(k, len(allq)))
         qs = SPECIAL + qs
         n0 = col.evaluations
